@@ -71,7 +71,8 @@ func (e *Engine) addrHeaps(addr ssa.Value) ([]string, bool) {
 		es := m.SortOf(pt.Elem())
 		si := m.Struct(es)
 		if si == nil {
-			return []string{"H|" + string(es)}, isAlloc(root)
+			hn, _ := m.CellHeap(pt.Elem())
+			return []string{hn}, isAlloc(root)
 		}
 		var names []string
 		for _, leaf := range e.structLeaves(si, path) {
@@ -96,9 +97,11 @@ func (e *Engine) addrHeaps(addr ssa.Value) ([]string, bool) {
 		return names, isAlloc(addr)
 	}
 	if at, ok := types.Unalias(pt.Elem()).Underlying().(*types.Array); ok {
-		return []string{"S|" + string(m.SortOf(at.Elem()))}, isAlloc(addr)
+		hn, _ := m.SliceHeap(at.Elem())
+		return []string{hn}, isAlloc(addr)
 	}
-	return []string{"H|" + string(es)}, isAlloc(addr)
+	hn, _ := m.CellHeap(pt.Elem())
+	return []string{hn}, isAlloc(addr)
 }
 
 func isAlloc(v ssa.Value) bool {
@@ -113,10 +116,12 @@ func (e *Engine) addrHeapsIndex(a *ssa.IndexAddr) ([]string, bool) {
 	m := e.Model
 	switch u := types.Unalias(a.X.Type()).Underlying().(type) {
 	case *types.Slice:
-		return []string{"S|" + string(m.SortOf(u.Elem()))}, isAlloc(a.X)
+		hn, _ := m.SliceHeap(u.Elem())
+		return []string{hn}, isAlloc(a.X)
 	case *types.Pointer:
 		if at, ok := types.Unalias(u.Elem()).Underlying().(*types.Array); ok {
-			return []string{"S|" + string(m.SortOf(at.Elem()))}, isAlloc(a.X)
+			hn, _ := m.SliceHeap(at.Elem())
+			return []string{hn}, isAlloc(a.X)
 		}
 	}
 	return []string{"*"}, false
@@ -143,27 +148,27 @@ func (e *Engine) instrMod(ins ssa.Instruction) (exist []string, fresh []string) 
 		n, f := e.addrHeaps(x.Addr)
 		add(n, f)
 	case *ssa.MapUpdate:
-		mt := types.Unalias(x.Map.Type()).Underlying().(*types.Map)
-		ks, vs := m.SortOf(mt.Key()), m.SortOf(mt.Elem())
-		add([]string{"M|" + string(ks) + "|" + string(vs), "D|" + string(ks) + "|" + string(vs)}, isAlloc(x.Map))
+		mn, dn, _, _, _ := m.MapHeaps(x.Map.Type())
+		add([]string{mn, dn}, isAlloc(x.Map))
 	case *ssa.Alloc:
 		n, _ := e.addrHeaps(x)
 		add(n, true)
 		fresh = append(fresh, "$wm")
 	case *ssa.MakeMap:
-		mt := types.Unalias(x.Type()).Underlying().(*types.Map)
-		ks, vs := m.SortOf(mt.Key()), m.SortOf(mt.Elem())
-		add([]string{"D|" + string(ks) + "|" + string(vs)}, true)
+		_, dn, _, _, _ := m.MapHeaps(x.Type())
+		add([]string{dn}, true)
 		fresh = append(fresh, "$wm")
 	case *ssa.MakeSlice:
 		st := types.Unalias(x.Type()).Underlying().(*types.Slice)
-		add([]string{"S|" + string(m.SortOf(st.Elem()))}, true)
+		hn, _ := m.SliceHeap(st.Elem())
+		add([]string{hn}, true)
 		fresh = append(fresh, "$wm")
 	case *ssa.MakeChan, *ssa.MakeClosure:
 		fresh = append(fresh, "$wm")
 	case *ssa.Convert:
 		if m.SortOf(x.Type()) == SSlice && m.SortOf(x.X.Type()) == SStr {
-			add([]string{"S|Int"}, true)
+			hn, _ := m.SliceHeap(types.Unalias(x.Type()).Underlying().(*types.Slice).Elem())
+			add([]string{hn}, true)
 			fresh = append(fresh, "$wm")
 		}
 	}
@@ -181,18 +186,15 @@ func (e *Engine) callMod(f *ssa.Function, cc *ssa.CallCommon) (exist []string, f
 	}
 	if b, ok := cc.Value.(*ssa.Builtin); ok {
 		switch b.Name() {
-		case "append":
+		case "append", "copy":
 			if st, ok := types.Unalias(cc.Args[0].Type()).Underlying().(*types.Slice); ok {
-				exist = append(exist, "S|"+string(m.SortOf(st.Elem())))
-			}
-		case "copy":
-			if st, ok := types.Unalias(cc.Args[0].Type()).Underlying().(*types.Slice); ok {
-				exist = append(exist, "S|"+string(m.SortOf(st.Elem())))
+				hn, _ := m.SliceHeap(st.Elem())
+				exist = append(exist, hn)
 			}
 		case "delete", "clear":
 			if mt, ok := types.Unalias(cc.Args[0].Type()).Underlying().(*types.Map); ok {
-				ks, vs := m.SortOf(mt.Key()), m.SortOf(mt.Elem())
-				exist = append(exist, "D|"+string(ks)+"|"+string(vs))
+				_, dn, _, _, _ := m.MapHeaps(mt)
+				exist = append(exist, dn)
 			}
 		}
 		return
@@ -229,17 +231,20 @@ func (e *Engine) externMod(callee *ssa.Function, cc *ssa.CallCommon) []string {
 	if _, ok := externModels[name]; ok {
 		switch {
 		case name == "sort.Strings":
-			return []string{"S|Str"}
+			hn, _ := m.SliceHeap(types.Typ[types.String])
+			return []string{hn}
 		case strings.Contains(name, "slices.Sort"):
 			if st, ok := types.Unalias(callee.Params[0].Type()).Underlying().(*types.Slice); ok {
-				r := []string{"S|" + string(m.SortOf(st.Elem()))}
+				hn, _ := m.SliceHeap(st.Elem())
+				r := []string{hn}
 				r = append(r, e.callbackMod(cc, 1)...)
 				return r
 			}
 		case strings.Contains(name, "IndexFunc") || strings.Contains(name, "ContainsFunc"):
 			return e.callbackMod(cc, 1)
 		case name == "strings.Split" || name == "strings.SplitN":
-			return []string{"S|Str"}
+			hn, _ := m.SliceHeap(types.Typ[types.String])
+			return []string{hn}
 		}
 		return nil
 	}
@@ -253,7 +258,8 @@ func (e *Engine) externMod(callee *ssa.Function, cc *ssa.CallCommon) []string {
 	for _, p := range callee.Params {
 		switch u := types.Unalias(p.Type()).Underlying().(type) {
 		case *types.Slice:
-			r = append(r, "S|"+string(m.SortOf(u.Elem())))
+			hn, _ := m.SliceHeap(u.Elem())
+			r = append(r, hn)
 		case *types.Pointer:
 			es := m.SortOf(u.Elem())
 			if si := m.Struct(es); si != nil {
@@ -261,11 +267,12 @@ func (e *Engine) externMod(callee *ssa.Function, cc *ssa.CallCommon) []string {
 					r = append(r, "HF|"+si.Name+"|"+fmtPath(leaf))
 				}
 			} else {
-				r = append(r, "H|"+string(es))
+				hn, _ := m.CellHeap(u.Elem())
+				r = append(r, hn)
 			}
 		case *types.Map:
-			ks, vs := m.SortOf(u.Key()), m.SortOf(u.Elem())
-			r = append(r, "M|"+string(ks)+"|"+string(vs), "D|"+string(ks)+"|"+string(vs))
+			mn, dn, _, _, _ := m.MapHeaps(u)
+			r = append(r, mn, dn)
 		case *types.Interface:
 			return []string{"*"}
 		case *types.Signature:
